@@ -21,8 +21,8 @@ from ..seqmc.fake_dbutils import FakeDbutils
 from ..seqmc.models import Obj, canon, tree, call
 
 P = "C08"
-KINDS = ["memory", "local", "local_cache", "dbfs"]
-VALS = {"k1": "x", "k2": b"y", "k3": None, "k4": Obj("o")}
+KINDS = ["memory", "local", "local_cache", "local_symlink", "dbfs"]
+VALS = {"k1": "x\r\ny\r", "k2": b"y\r\n\x00", "k3": None, "k4": Obj("o")}
 KEYS = ["k1", "k2", "k3", "k4", "k5"]  # k5 is never stored
 H = {k: k[1] * 64 for k in KEYS}
 SEGS = ["a", "b", "ab", "a b", "a.b", ".a", "é", ".", ".."]
@@ -39,8 +39,12 @@ def open_store(s):
         if getattr(s, "store", None) is not None:
             return s.store  # a memory store cannot be re-opened
         dds.set_store("memory")
-    elif s.kind in ("local", "local_cache"):
+    elif s.kind in ("local", "local_cache", "local_symlink"):
         kw = {"cache_objects": 2} if s.kind == "local_cache" else {}
+        if s.kind == "local_symlink" and not os.path.lexists(os.path.join(s.root, "sandbox")):
+            # both directories are reached through a symbolic link whose target sits at another depth
+            os.makedirs(os.path.join(s.root, "elsewhere", "deep", "er", "real_sandbox"))
+            os.symlink(os.path.join(s.root, "elsewhere", "deep", "er", "real_sandbox"), os.path.join(s.root, "sandbox"))
         dds.set_store("local", internal_dir=os.path.join(s.root, "sandbox", "i"),
                       data_dir=os.path.join(s.root, "sandbox", "d", "data"), **kw)
     else:
@@ -200,7 +204,7 @@ def single(kind, p):
     s = build(kind)
     probs = []
     try:
-        s.store.store_blob(H["k1"], "x", None)
+        s.store.store_blob(H["k1"], VALS["k1"], None)
         before = physical(s)
         r = call(lambda: s.store.sync_paths(OrderedDict([(p, H["k1"])])))
         status = "ok"
@@ -250,8 +254,8 @@ def pair(kind, p, q):
     for order in ("pq", "qp", "both"):
         s = build(kind)
         try:
-            s.store.store_blob(H["k1"], "x", None)
-            s.store.store_blob(H["k2"], b"y", None)
+            s.store.store_blob(H["k1"], VALS["k1"], None)
+            s.store.store_blob(H["k2"], VALS["k2"], None)
             want = {p: H["k1"], q: H["k2"]}
             seq = {"pq": [[p], [q]], "qp": [[q], [p]], "both": [[p, q]]}[order]
             rs = [call(lambda: s.store.sync_paths(OrderedDict((x, want[x]) for x in grp))) for grp in seq]
